@@ -41,7 +41,7 @@ pub(crate) fn target_uf(k: &[u8; 32], salt: Option<&[u8]>) -> Id {
 }
 
 fn scenario(seq: i64, seq_dec: &[u8], with_salt: bool) {
-    crate::verif_env::uf::arm(kani::any());
+    crate::verif_env::uf::arm(kani::env());
     let verdict: bool = kani::any();
     oracle::arm(0, verdict);
     let key = oracle::K1;
@@ -226,8 +226,10 @@ fn encode_signable_probe(seq: i64, value: &[u8], salt: Option<&[u8]>) -> Box<[u8
 }
 
 //@ ob: C02.O1u
-//@ tier: thorough
-//@ cap: 1500
+//@ tier: quick
+//@ cap: 800
+//@ rss: 2.0
+//@ time: 78
 //@ also: C03
 //@ desc: MutableItem::from_dht_message(target, k, v, seq, sig, salt) for EVERY i64 seq: Ok(item) iff the signature oracle said valid for exactly (k, encode_signable(seq, v, salt), sig) -- the signable buffer computed once, from the request's own seq, value and salt -- AND target = target_from_key(k, salt); the item carries target, k, seq, v, salt, sig; an item for another salt, another key's target, or with a corrupted signature is refused
 //@ bounds: k = a concrete valid Ed25519 key; target 20 symbolic bytes; sig 64 symbolic bytes; v 1 symbolic byte; salt absent or 1 symbolic byte; seq full symbolic i64; symbolic verdict; unwind 66
@@ -240,7 +242,7 @@ fn encode_signable_probe(seq: i64, value: &[u8], salt: Option<&[u8]>) -> Box<[u8
 #[kani::stub(encode_signable, encode_signable_probe)]
 #[kani::unwind(66)]
 fn c02_o1u_from_dht_message_any_seq() {
-    crate::verif_env::uf::arm(kani::any());
+    crate::verif_env::uf::arm(kani::env());
     let verdict: bool = kani::any();
     oracle::arm(0, verdict);
     let key = oracle::K1;
@@ -295,9 +297,11 @@ fn c02_o1u_from_dht_message_any_seq() {
 //@ also: C03
 //@ desc: mutable::encode_signable(seq, v, salt) is byte for byte the BEP44 signable buffer -- "4:salt" len ":" salt (only with a salt) then "3:seqi" seq "e1:v" len ":" v -- for seq = 1 without salt and seq = -1 with a one-byte salt of any value (bytes that are not valid UTF-8 included)
 //@ bounds: two concrete seqs (1, -1); 1 symbolic value byte; 1 symbolic salt byte; unwind 26
-//@ stubs: none
+//@ stubs: <i64 as Display>::fmt, <usize as Display>::fmt -> plain decimal writer (std's table-driven formatter + pad_integral do not finish symbolic execution); the format! machinery itself (fmt::write, String) is real
 //@ functions: mutable::encode_signable
 #[kani::proof]
+#[kani::stub(<i64 as std::fmt::Display>::fmt, crate::verif_env::dec::i64_display)]
+#[kani::stub(<usize as std::fmt::Display>::fmt, crate::verif_env::dec::usize_display)]
 #[kani::unwind(26)]
 fn c02_o1s_signable_encoding() {
     let vb: u8 = kani::any();
@@ -397,8 +401,10 @@ fn tk_digest_probe(_s: &sha1_smol::Sha1) -> sha1_smol::Digest {
 }
 
 //@ ob: C02.O1t
-//@ tier: thorough
-//@ cap: 1200
+//@ tier: quick
+//@ cap: 800
+//@ rss: 0.5
+//@ time: 19
 //@ also: C03
 //@ desc: MutableItem::target_from_key(k, salt) feeds exactly k followed by the salt (nothing else, nothing missing) into SHA-1 and returns that hasher's digest: for no salt, an empty salt, and salts of 1 and 64 bytes
 //@ bounds: key 32 symbolic bytes; salt absent / empty / 1 symbolic byte / 64 bytes (first and last symbolic); SHA-1 itself abstracted (Sha1::update records, Sha1::digest uninterpreted); unwind 8
